@@ -59,9 +59,11 @@ def build(ck):
     if _want(ck, "wrap"):
         _wrap(ck)
     if _want(ck, "E2"):
-        pyk.wavenumber_obligations(ck)
-        _oddball_all_N(ck)
-        _mode_blocks_all_N(ck)
+        for part in (pyk.wavenumber_obligations, _oddball_all_N, _mode_blocks_all_N):
+            try:
+                part(ck)
+            except (pyk.OutOfDate, RuntimeError, AssertionError, AttributeError, TypeError) as ex_:
+                ck.error(f"E2 encoding out of date in {part.__name__}: {ex_!r}")
 
 
 def _want(ck, tag):
